@@ -163,7 +163,7 @@ def bounded(ctx):
                     # zero-length locations, approximate boundaries), anywhere on the plasmid
                     from bounded import common as bc_
                     tabs_ = bc_.feature_tables(len(nseq))
-                    feats_ = bc_.build_features(tabs_[(j * 7 + newlen + chain_len * 3) % len(tabs_)])
+                    feats_ = [f_ for t_i, t_ in enumerate(tabs_) for f_ in bc_.build_features(t_) if (t_i + j + newlen) % 2 == 0 or t_i >= len(tabs_) - 8]
                     lan_ = [{}, {"phred_quality": list(range(len(nseq)))}, {"phred_quality": tuple(range(len(nseq)))}, {"other_track": "x" * len(nseq)}][(j + newlen) % 4]
                     if made == "fresh":
                         repl = Mod(CircularRecord(nseq, id=rid, features=feats_, letter_annotations=lan_))
